@@ -210,7 +210,7 @@ impl Property for C20 {
                 emit(json!({"kind": "vocab-nonempty"}));
             })
             .exhaustive(),
-            Family::new("class-completion", ctx.tier.pick(40, 800), |_c, rng, emit| {
+            Family::new("class-completion", ctx.tier.pick(300, 4000), |_c, rng, emit| {
                 for _ in 0..50 {
                     let (files, classes, positions) = class_ws(rng);
                     let case = json!({
